@@ -1,3 +1,3 @@
 SPECIFICATION Spec
-INVARIANTS PositionalsInOrder TailVerbatim
+INVARIANTS PositionalsInOrder TailVerbatim DerivationIsItemReading
 CHECK_DEADLOCK FALSE
